@@ -72,6 +72,14 @@ func (bucket *Bucket) _closeSqliteDB() {
 	for _, c := range bucket.collections {
 		c.close()
 	}
+	// Feeds are registered in a map shared by all handles, but this handle may never have opened
+	// some of the collections they run on: stop those too.
+	for name, feeds := range bucket.collectionFeeds {
+		for _, feed := range feeds {
+			feed.close()
+		}
+		delete(bucket.collectionFeeds, name)
+	}
 	if bucket.sqliteDB != nil {
 		bucket.sqliteDB.Close()
 		bucket.collections = nil
